@@ -98,6 +98,31 @@ CHECKS["C16"] = (
     "DESIGN.md 7/C16",
 )
 
+CHECKS["C09"] = (
+    "Coq soundness theorem of an abstract interpreter over stack-template trees (frame_ok t k -> prefix literally unchanged, for every behaviour of the uninterpreted element functions) + vm_compute sweep over the trees regenerated from every template + sentinel sweep oracle",
+    "Machine-checked: any template accepted by frame_ok at arity k leaves every entry below the top k untouched and unread, whatever the element functions return or raise and whatever retain_popped/reverse_flag are (C09_sound, C09_local); 597 regenerated instances (397 elements at their declared arity, 8 modifiers at operand arities 0..4) are frame_ok or belong to the documented whole-stack family (C09_table_partial). PARTIAL for function bodies: they are uninterpreted in the theorem; an allow-list scan of `.stacks` users and a sentinel sweep of every key on two prefixes cover them dynamically.",
+    "Trusted: coqc kernel; translator tools/gen_quirks.py (template text -> stack-program tree, fail-closed, pops/pushes recounted on the raw text); element function bodies are opaque (dynamic sweep only). Known findings: ¨ẇ (undocumented wrap-n reaches below its declared arity), øḋ (eval with `stack` in scope).",
+    "DESIGN.md 7/C09",
+)
+CHECKS["C10"] = (
+    "Coq least-fixed-point closure over a mutation summary regenerated from every function body (proved monotone, fixed, least, sound for the summary semantics) + heap-model theorems for copy-on-duplicate built on the C13 refinement + snapshot oracle",
+    "Machine-checked: the may-mutate closure computed in Coq on the regenerated call graph is the least fixed point and an unflagged function performs no mutation in any execution of the summary semantics at any call depth; every element/modifier outside the derived suspect list is unflagged (finite sweep); after `:`/`D`/`Ḃ`/`¾` any sequence of non-mutating operations on one reference leaves the other's denotation unchanged (eager and lazy, from C13). PARTIAL: the closure is about the translator's summary of the bodies, not the bodies; statically flagged functions are judged one by one by the dynamic oracle (listed in evidence).",
+    "Trusted: coqc kernel; translator tools/gen_mutation.py (alias and mutation-site summary, fail-closed per function); dynamic calls through user lambdas are not edges; snapshot oracle over every element and copy programs. Known finding: multiply stores stored_arity on a function argument.",
+    "DESIGN.md 7/C10",
+)
+CHECKS["C12"] = (
+    "Coq: balance analysis on the effect tree of the emitted code proved sound for a nondeterministic semantics (any branch, any number of loop iterations) and proved to accept the code of every program tree (induction, unbounded nesting) + obligation over book-mutation sites re-read from the sources + effect-tree correspondence via Python's ast",
+    "Machine-checked: for every program tree whose early exits stand where exit_ok allows, the emitted code is balanced on context_values / inputs / stacks / function_stack after the whole program and after every top-level statement, every def body (lambda, function, list item) returns at its entry depth, and every run of balanced code under the nondeterministic semantics ends normally at the initial depths. Nothing outside the structure templates changes those depths (regenerated facts: no template touches them, LazyList.output pops what it pushes).",
+    "Trusted: coqc kernel; translator tools/gen_books.py; that the effect tree describes transpile()'s output is checked with Python's ast on every case, exact text by correspondence; CPython's execution of the block tree is modelled by exec1/execl; exceptions and non-termination are outside 'finishes normally'; depth oracle runs every prefix of top-level statements.",
+    "DESIGN.md 7/C12",
+)
+CHECKS["C18"] = (
+    "Coq induction over program trees on the exact text model: every chunk of the emitted text is fixed vocabulary or a payload-carrying shape whose payload is a well-terminated literal body or an identifier over [A-Za-z0-9_] + proof obligations on the regex classes re-read from the re.sub calls + exact-text correspondence + ast whitelist oracle",
+    "Machine-checked for every source string and both lexer modes (C18): if transpile returns text, every line of it is either a member of the fixed vocabulary (transpile.py's lines and the regenerated template lines) or one of the listed shapes whose program-derived part is a string body accepted by the double-quote automaton, digits, a repr from the generated table, or an identifier over ASCII letters, digits and underscore; escape_string makes ANY string a safe body (no assumption on the dictionary); each sanitising class is an obligation on the regenerated character class.",
+    "Trusted: coqc kernel; translator (regex classes, template lines, repr table for code-page characters); text model = transpile() by exact-text correspondence on adversarial payloads at every injection position; a raw carriage return (outside the code page) is tolerated by the automaton because Python rejects the whole module (C02's subject).",
+    "DESIGN.md 7/C18",
+)
+
 NOT_YET = {}
 
 def main():
